@@ -29,6 +29,7 @@ from typing import Union, Iterable, Callable
 import numpy as np
 import numpy.random
 from pyannote.core import Segment
+from pyannote.core.segment import SEGMENT_PRECISION
 from sortedcontainers import SortedSet
 
 from .continuum import Annotator, Continuum
@@ -204,17 +205,18 @@ class CorpusShufflingTool:
                            self._reference_continuum.avg_num_annotations_per_annotator)):
             for annotator in continuum.annotators:
                 units = continuum._annotations[annotator]
-                to_split = units.pop(numpy.random.randint(0, len(units)))
+                # Only the units long enough for both parts of the split to be valid segments can be split,
+                # so that every announced split does add a unit.
+                splittable = [unit for unit in units if unit.segment.duration * 0.01 > SEGMENT_PRECISION]
+                if len(splittable) == 0:
+                    continue
+                to_split = splittable[numpy.random.randint(0, len(splittable))]
+                units.remove(to_split)
                 security = (to_split.segment.end - to_split.segment.start) * 0.01
-                cut = numpy.random.uniform(to_split.segment.start + security, to_split.segment.end)
+                cut = numpy.random.uniform(to_split.segment.start + security, to_split.segment.end - security)
 
-
-                try:
-                    continuum.add(annotator, Segment(cut, to_split.segment.end), to_split.annotation)
-                    continuum.add(annotator, Segment(to_split.segment.start, cut), to_split.annotation)
-                except ValueError:
-                    continuum.add(annotator, to_split.segment, to_split.annotation)
-                    continuum.add(annotator, to_split.segment, to_split.annotation)
+                continuum.add(annotator, Segment(cut, to_split.segment.end), to_split.annotation)
+                continuum.add(annotator, Segment(to_split.segment.start, cut), to_split.annotation)
 
 
     def corpus_shuffle(self,
